@@ -455,6 +455,20 @@ func (mp *mergeProcessor) processBlock(
 			return nil
 		}
 
+		if dagBlock.Delta.IsField() {
+			// A field level block can be linked by several composite blocks: identical writes to a field
+			// made independently on different nodes result in one and the same block. If it (or one of its
+			// descendants) has already been merged, merging it again would re-apply its delta and bring
+			// it back as a head next to its own descendants.
+			isMerged, err := mp.isFieldBlockMerged(ctx, crdt, dagBlock, blockLink)
+			if err != nil {
+				return err
+			}
+			if isMerged {
+				return nil
+			}
+		}
+
 		err = coreblock.ProcessBlock(ctx, crdt, block, blockLink)
 		if err != nil {
 			return err
@@ -488,6 +502,58 @@ func (mp *mergeProcessor) processBlock(
 	}
 
 	return nil
+}
+
+// isFieldBlockMerged returns true if the given field level block is one of the current heads of its
+// field, or an ancestor of one of them.
+//
+// Only the part of the field's DAG that lies above the height of the given block is walked, which is
+// nothing at all in the usual case of a block that extends the current heads.
+func (mp *mergeProcessor) isFieldBlockMerged(
+	ctx context.Context,
+	crdt core.ReplicatedData,
+	block *coreblock.Block,
+	blockLink cidlink.Link,
+) (bool, error) {
+	txn := datastore.CtxMustGetTxn(ctx)
+	headset := coreblock.NewHeadSet(txn.Headstore(), crdt.HeadstorePrefix())
+	heads, _, err := headset.List(ctx)
+	if err != nil {
+		return false, err
+	}
+
+	height := block.Delta.GetPriority()
+	visited := make(map[cid.Cid]struct{}, len(heads))
+	queue := heads
+	for len(queue) > 0 {
+		current := queue[0]
+		queue = queue[1:]
+		if current == blockLink.Cid {
+			return true, nil
+		}
+		if _, ok := visited[current]; ok {
+			continue
+		}
+		visited[current] = struct{}{}
+
+		nd, err := mp.blockLS.Load(linking.LinkContext{Ctx: ctx}, cidlink.Link{Cid: current}, coreblock.BlockSchemaPrototype)
+		if err != nil {
+			return false, err
+		}
+		currentBlock, err := coreblock.GetFromNode(nd)
+		if err != nil {
+			return false, err
+		}
+		if currentBlock.Delta.GetPriority() <= height {
+			// the ancestors of this block are all lower than the block we are looking for
+			continue
+		}
+		for _, head := range currentBlock.Heads {
+			queue = append(queue, head.Cid)
+		}
+	}
+
+	return false, nil
 }
 
 // processDocumentLink merges the document composite block with the given link, along with any of its
